@@ -1999,14 +1999,14 @@ class Surface(SplineGeometry):
             return
 
         # Remove duplicate elements from the kwargs dictionary
-        kwlist = ["size_u", "size_v", "trims"]
+        kwlist = ["size_u", "size_v", "trims", "domain"]
         for kw in kwlist:
             if kw in kwargs:
                 kwargs.pop(kw)
 
         # Call tessellation component for vertex and triangle generation
         self._tsl_component.tessellate(self.evalpts, size_u=self.sample_size_u, size_v=self.sample_size_v,
-                                       trims=self.trims, **kwargs)
+                                       trims=self.trims, domain=self.domain, **kwargs)
 
         # Re-evaluate vertex coordinates
         for idx in range(len(self._tsl_component.vertices)):
